@@ -203,6 +203,10 @@ private:
     return count == 0 || count == 2 || count == 4;
   }
 
+  // Limit for nested parentheses so recursion can't run out of stack.
+  static const int MAX_PAREN_DEPTH = 64;
+
+  static int run_paren(AsmContext *asm_context, Var &answer);
   static int execute_stack(VarStack &var_stack, OperStack &oper_stack);
   static int parse_unary_new(AsmContext *asm_context, Var &answer);
   static int get_quoted_literal(AsmContext *asm_context, char *token, int length);
